@@ -4,7 +4,7 @@ from ..models import interleaved_ref as ref
 from . import interleaved_common as ic
 
 LEVEL = "model_checking"
-RULE = ("C04's geometries x budgets (plus the zero budgets) x config sets (every single config of the menu "
+RULE = ("C04's geometries x budgets (plus the zero budgets, plus long budgets of 5 / 7 epochs for N<=4 with no or one config) x config sets (every single config of the menu "
         "intervals{ene,enu,ens incl. mixed kinds} x sampler length{0,1,3} x data-source slack{0,2} x batch size{None,1,2}; "
         "pairs/triples from a reduced menu); full (main+side) stream compared event by event with the reference model; "
         "on a sub-lattice the batch sampler / dataset / collator level is driven as DataLoader(num_workers=0) does and "
@@ -149,8 +149,11 @@ def task(args):
     sets = config_sets(b, seed)
     n = 0
     buds = list(ic.budgets(geo)) + [('epochs', 0), ('updates', 0), ('samples', 0)]
-    for bud in buds:
-        for cfgs in sets:
+    work = [(bud, cfgs) for bud in buds for cfgs in sets]
+    if geo[0] <= ic.DEEP_N:
+        work += [(bud, cfgs) for bud in ic.deep_budgets(geo) for cfgs in sets if len(cfgs) <= 1]
+    for bud, cfgs in work:
+        if True:
             n += 1
             dl = (n % b["dl_every"] == 0) or bud[1] == 0
             rdl = n % b["real_dl_every"] == 0
